@@ -328,7 +328,7 @@ def divergenceTermSpherical1D(F:FaceVariable):
     re = rf[1:Nx+1]
     rw = rf[0:Nx]
     # compute the divergence
-    div_x = (re*re*Fe-rw*Fw)/(DX*rp*rp)
+    div_x = (re*re*Fe-rw*rw*Fw)/((re**3-rw**3)/3.0)
     # define the RHS Vector
     RHSdiv = np.zeros(Nx+2)
     # assign the values of the RHS vector
